@@ -282,6 +282,18 @@ fn auth_mutants(base: &Form) -> Vec<(String, Form)> {
         f.set_field(field, "");
         out.push((format!("empty:{field}"), f));
     }
+    // the right signature cut to a prefix, or lengthened
+    {
+        let sig = base.field("x-amz-signature").unwrap().to_owned();
+        for keep in [1usize, 2, 32, 63] {
+            let mut f = base.clone();
+            f.set_field("x-amz-signature", &sig[..keep]);
+            out.push((format!("signature-prefix:x-amz-signature@{keep}"), f));
+        }
+        let mut f = base.clone();
+        f.set_field("x-amz-signature", &format!("{sig}0"));
+        out.push(("signature-lengthened:x-amz-signature@65".into(), f));
+    }
     // whole-part substitutions of the credential scope
     for (i, rep) in [(0, AK2), (0, "AKIDUNKNOWN000000000"), (1, "20240228"), (2, "eu-west-1"), (3, "sts"), (4, "aws4_requesu")] {
         let mut parts: Vec<String> = base.field("x-amz-credential").unwrap().split('/').map(str::to_owned).collect();
